@@ -182,8 +182,10 @@ def _t34(chk, repo, g):
             for k2 in g.reachable(inner):
                 f2 = g.funcs[k2]
                 for e2 in effects.scan(repo, f2):
-                    if e2.kind == "lock" and not (k2 == fi.key and ident(e2.detail) == ident(held)):
-                        edges.setdefault(ident(held), set()).add((ident(e2.detail), f"{fi.qualname} -> {f2.qualname}"))
+                    # the holder's own `with` is not an inner acquisition - unless the function calls itself from inside the block
+                    # (a retry by recursion acquires the lock it already holds)
+                    if e2.kind == "lock" and not (k2 == fi.key and ident(e2.detail) == ident(held) and fi.key not in inner):
+                        edges.setdefault(ident(held), set()).add((ident(e2.detail), f"{fi.qualname} -> {f2.qualname}" + (" (recursive call inside the block)" if k2 == fi.key else "")))
                 for dl in effects.decorator_locks(repo, f2):
                     edges.setdefault(ident(held), set()).add((ident(dl.split(" holds ")[1].split(" around")[0]), f"{fi.qualname} -> {f2.qualname} (decorator)"))
     # several items of one `with a, b:` are acquired in order: a -> b
